@@ -477,7 +477,9 @@ def check(case, ctx):
                     rows = np.where(~np.all(np.isfinite(o_.astype(float).reshape(len(o_), -1)), axis=1))[0]
                     bad = int(rows[0]) if len(rows) else None
             for v in ctx.viols[nv:]:
-                v.region = "pose:generic(long fast recording)"          # (the field samples of these histories are in general position)
+                # (the field samples of these histories are in general position; the label carries the rate band: the unchanged FKF is only known to
+                #  lose its covariance above 3 rad per sample)
+                v.region = "pose:generic(long fast recording%s)" % (", above 3 rad per sample" if float(np.linalg.norm(g[0])) * 0.01 > 3.0 else "")
                 if isinstance(v.detail, dict):
                     v.detail.update(first_non_finite_sample=bad, samples=n, rate_times_step=float(np.linalg.norm(g[0]) * 0.01), history=region)
         elif len(ctx.viols) > nv:
